@@ -31,6 +31,7 @@ fn main() {
         (Some("replay"), Some("bddvec")) => vec_replay::replay_bddvec(&args),
         (Some("replay"), Some("itevec")) => vec_replay::replay_itevec(&args),
         (Some("replay"), Some("smoothvec")) => vec_replay::replay_smoothvec(&args),
+        (Some("replay"), Some("mmapvec")) => vec_replay::replay_mmapvec(&args),
         (Some("replay"), Some("sddvec")) => vec_replay::replay_sddvec(&args),
         (Some("replay"), Some("satvec")) => sat_rec::replay_satvec(&args),
         (Some("replay"), Some("table")) => tables::replay_table(&args),
